@@ -87,7 +87,10 @@ def finish(prop, tier, seed, plan, units, results, t0):
             canary_res.append((u, r))
             continue
         solver_s += r.solver_s
+        sel = getattr(u, "select", None)
         for o in r.obligations:
+            if sel is not None and not re.search(sel, o.name):
+                continue
             obligations.append(o)
             by_backend[o.backend if o.backend in by_backend else "z3"] = by_backend.get(o.backend, 0) + 1
         for x in r.unsupported:
